@@ -19,6 +19,15 @@ impl ECIESCiphertext {
     }
 
     pub(crate) fn from_bytes_impl(buffer: &[u8], has_pub_key: bool) -> Result<ECIESCiphertext, BSVErrors> {
+        // magic (4) + optional compressed public key (33) + HMAC (32)
+        let min_len = match has_pub_key {
+            true => PUB_KEY_END as usize + 32,
+            false => 4 + 32,
+        };
+        if buffer.len() < min_len {
+            return Err(BSVErrors::ECIESError("Ciphertext is too short".into()));
+        }
+
         let pub_key = match has_pub_key {
             true => {
                 let pub_key_buf = &buffer[PUB_KEY_OFFSET as usize..PUB_KEY_END as usize];
